@@ -980,8 +980,8 @@ Fixpoint eval (fuel : nat) (e : expr) (ro : bool) (vs : vars) (ctx : list ptr) (
         match o with
         | OAdd => cross ev true no_short add_nodes l r true vs ctx st
         | OSub => cross ev false no_short (lift2 sub_nodes) l r true vs ctx st
-        | OMul => cross ev false no_short (lift2 (mul_nodes 0)) l r ro vs ctx st
-        | OMulF fl => cross ev false no_short (lift2 (mul_nodes fl)) l r ro vs ctx st
+        | OMul => cross ev false no_short (lift2 (mul_nodes 0)) l r true vs ctx st
+        | OMulF fl => cross ev false no_short (lift2 (mul_nodes fl)) l r true vs ctx st
         | OMod => cross ev false no_short (lift2 mod_nodes) l r true vs ctx st
         | OEq => cross ev true no_short (eq_nodes false) l r ro vs ctx st
         | ONe => cross ev true no_short (eq_nodes true) l r true vs ctx st
